@@ -50,13 +50,13 @@ def check (prog : List Op) (outs : List Nat) (spec : Spec) : Bool :=
   let n := spec.pre.length
   wfProg n prog &&
   (!spec.noWrap || wrapsOK prog spec.pre) &&
-  match srun prog spec.pre (inS n) with
-  | none => false
-  | some (a', s') =>
-    postOK a' outs spec.post &&
-    match spec.congr with
-    | none => true
-    | some c =>
+  match spec.congr with
+  | none => postOK (arun prog spec.pre) outs spec.post     -- bounds only: the cheap interval run suffices
+  | some c =>
+    match srun prog spec.pre (inS n) with
+    | none => false
+    | some (a', s') =>
+      postOK a' outs spec.post &&
       c.rhs.scoped n && decide (c.weights.length = outs.length) &&
       (((lincombS s' c.weights outs).add (c.rhs.scale (-1))).norm).allDiv c.modulus
 
@@ -169,22 +169,28 @@ theorem check_sound (prog : List Op) (outs : List Nat) (spec : Spec) (hc : check
   simp only [check, Bool.and_eq_true] at hc
   obtain ⟨⟨hwf, hwrap⟩, hrest⟩ := hc
   have hsat : Sat ins spec.pre := ⟨hpre.1, hpre.2⟩
+  have hW : spec.noWrap = true → NoLossyWrap prog ins := by
+    intro hn
+    simp [hn] at hwrap
+    exact wrapsOK_sound prog ins spec.pre hsat hwf hwrap
   split at hrest
-  · simp at hrest
-  · next a' s' hrun =>
-    have hS0 : SSat ins (inS spec.pre.length) := by rw [← hpre.1]; exact SSat_inS ins
-    obtain ⟨hA, hS⟩ := srun_sound prog ins spec.pre a' (inS spec.pre.length) s' hsat hS0 hwf hrun
-    simp only [Bool.and_eq_true] at hrest
-    obtain ⟨hpost, hcongr⟩ := hrest
-    obtain ⟨p1, p2, p3⟩ := postOK_sound e a' hA outs spec.post hpost
-    refine ⟨⟨p1, p3⟩, ?_, ?_⟩
-    · intro hn
-      simp [hn] at hwrap
-      exact wrapsOK_sound prog ins spec.pre hsat hwf hwrap
-    · intro c hcs
-      rw [hcs] at hcongr
-      simp only [Bool.and_eq_true, decide_eq_true_eq] at hcongr
-      obtain ⟨⟨hsc, _⟩, hdiv⟩ := hcongr
+  · next hcn =>
+    have hA := run_sound prog ins spec.pre hsat hwf
+    obtain ⟨p1, _, p3⟩ := postOK_sound e _ hA outs spec.post hrest
+    exact ⟨⟨p1, p3⟩, hW, by intro c hcs; rw [hcn] at hcs; cases hcs⟩
+  · next c hcs0 =>
+    split at hrest
+    · simp at hrest
+    · next a' s' hrun =>
+      have hS0 : SSat ins (inS spec.pre.length) := by rw [← hpre.1]; exact SSat_inS ins
+      obtain ⟨hA, hS⟩ := srun_sound prog ins spec.pre a' (inS spec.pre.length) s' hsat hS0 hwf hrun
+      simp only [Bool.and_eq_true, decide_eq_true_eq] at hrest
+      obtain ⟨⟨⟨hpost, hsc⟩, _⟩, hdiv⟩ := hrest
+      obtain ⟨p1, p2, p3⟩ := postOK_sound e a' hA outs spec.post hpost
+      refine ⟨⟨p1, p3⟩, hW, ?_⟩
+      intro c' hcs
+      rw [hcs0] at hcs
+      cases hcs
       have hv := Poly.allDiv_sound e c.modulus _ hdiv
       rw [Poly.val_norm, Poly.val_add, Poly.val_scale] at hv
       have hlen : a'.length = s'.length := by rw [← hA.1, hS.1]
